@@ -37,6 +37,7 @@ CONSTANTS IdleTimeout,            \* ms
           Dev_IdleIgnoresMailbox,             \* TRUE = the code: idle is announced although ticks wait in the run's mailbox
           Dev_CancelBypassesLock,             \* TRUE = the code before /repo 'fix: cancelling an idle-released run': cancel() went to
                                               \* the inner adapter (no lock, no reload, no idle clear); FALSE: a cancel is a send
+          Dev_SendSkipsLockWhenLoaded,        \* FALSE = the code: every send takes the reload lock (SendFast is the deviation)
           WithCancel                          \* model checking: include such cancel requests
 
 VARIABLES now,
@@ -55,10 +56,12 @@ VARIABLES now,
           sfails,     \* failed attempts of the initial row write
           faults,     \* injected failures so far
           inbox,      \* ticks accepted by send_event and not yet reduced by a loop
+          relpc,      \* the idle-release task inside its critical section: "none" | "okT" / "okF" (it holds the reload lock
+                      \* and has READ the row: idle long enough / not) -- the store reply may take its time
           sendpc      \* a send in progress: "none" | "checked" (the service found the handler running; lock not yet
                       \* taken) | "lock" (reload lock held) | "cleared" (idle_since cleared)
 
-vars == <<now, proc, row, nlog, logEnded, loops, gen, active, pactive, timers, eng, tw, start, sfails, faults, inbox, sendpc>>
+vars == <<now, proc, row, nlog, logEnded, loops, gen, active, pactive, timers, eng, tw, start, sfails, faults, inbox, sendpc, relpc>>
 
 Terminal == {"completed", "failed", "cancelled"}
 StatusOf(k) == CASE k = "stop" -> "completed" [] k = "cancelled" -> "cancelled" [] OTHER -> "failed"
@@ -69,14 +72,14 @@ NoRow == [exists |-> FALSE, status |-> "", idle |-> 0, result |-> FALSE]
 Eng0 == [work |-> TRUE, timers |-> FALSE, ended |-> "none", phase |-> "wait", cause |-> "work", imail |-> 0, chk |-> FALSE]
 NoTw == [on |-> FALSE, status |-> "", fails |-> 0]
 Live == loops # {}
-LockFree == sendpc \in {"none", "checked"}          \* the per-run reload lock (KeyedLock) is not held
+LockFree == sendpc \in {"none", "checked"} /\ relpc = "none"         \* the per-run reload lock (KeyedLock) is not held
 \* (a released loop is a cancelled task: loops keeps it until LoopExit, but it never executes again -- every loop action
 \*  below requires `active`; a loop that ended by itself keeps active = TRUE, as _active_run_ids does)
 
 Init ==
   /\ now = 0 /\ proc = "up" /\ row = NoRow /\ nlog = 0 /\ logEnded = FALSE /\ loops = {} /\ gen = 0
   /\ active = FALSE /\ pactive = FALSE /\ timers = {} /\ eng = Eng0 /\ tw = NoTw
-  /\ start = "none" /\ sfails = 0 /\ faults = 0 /\ inbox = 0 /\ sendpc = "none"
+  /\ start = "none" /\ sfails = 0 /\ faults = 0 /\ inbox = 0 /\ sendpc = "none" /\ relpc = "none"
 
 ----------------------------------------------------------------------------
 (* start_workflow: the row is written (retrying on transient faults) BEFORE the run is started *)
@@ -84,12 +87,12 @@ StartRowOk ==
   /\ proc = "up" /\ start \in {"none", "row"}
   /\ row' = [exists |-> TRUE, status |-> "running", idle |-> 0, result |-> FALSE]
   /\ start' = "done"
-  /\ UNCHANGED <<now, proc, nlog, logEnded, loops, gen, active, pactive, timers, eng, tw, sfails, faults, inbox, sendpc>>
+  /\ UNCHANGED <<relpc, now, proc, nlog, logEnded, loops, gen, active, pactive, timers, eng, tw, sfails, faults, inbox, sendpc>>
 
 StartRowFail ==        \* one failed attempt; the back-off sleep is time passing with start = "row"
   /\ proc = "up" /\ start \in {"none", "row"} /\ faults < MaxFaults /\ sfails < Len(Backoffs)
   /\ start' = "row" /\ sfails' = sfails + 1 /\ faults' = faults + 1
-  /\ UNCHANGED <<now, proc, row, nlog, logEnded, loops, gen, active, pactive, timers, eng, tw, inbox, sendpc>>
+  /\ UNCHANGED <<relpc, now, proc, row, nlog, logEnded, loops, gen, active, pactive, timers, eng, tw, inbox, sendpc>>
 
 (* workflow.run(): a control loop task; both decorators note the run as active *)
 RunLoop(fromLog) ==
@@ -100,7 +103,7 @@ RunLoop(fromLog) ==
 StartRun ==
   /\ proc = "up" /\ start = "done" /\ gen = 0 /\ row.exists
   /\ RunLoop(FALSE)
-  /\ UNCHANGED <<now, proc, row, nlog, logEnded, timers, tw, start, sfails, faults, inbox, sendpc>>
+  /\ UNCHANGED <<relpc, now, proc, row, nlog, logEnded, timers, tw, start, sfails, faults, inbox, sendpc>>
 
 ----------------------------------------------------------------------------
 (* the control loop: reduce a tick, persist it, execute its commands (publishes) *)
@@ -108,7 +111,7 @@ Causes == {"work", "timer", "mail", "imail", "idlecheck"}
 InternalSend ==               \* a running step body calls ctx.send_event: the tick goes to the run's own mailbox
   /\ proc = "up" /\ gen \in loops /\ active /\ eng.ended = "none" /\ eng.work /\ eng.imail < 3
   /\ eng' = [eng EXCEPT !.imail = @ + 1]
-  /\ UNCHANGED <<now, proc, row, nlog, logEnded, loops, gen, active, pactive, timers, tw, start, sfails, faults, inbox, sendpc>>
+  /\ UNCHANGED <<relpc, now, proc, row, nlog, logEnded, loops, gen, active, pactive, timers, tw, start, sfails, faults, inbox, sendpc>>
 
 Tick(w, t, cause) ==          \* the reducer ran; w, t: the engine summary after it; cause: where the tick came from
   /\ proc = "up" /\ gen \in loops /\ active /\ ~tw.on /\ eng.ended = "none" /\ eng.phase = "wait"
@@ -123,13 +126,13 @@ Tick(w, t, cause) ==          \* the reducer ran; w, t: the engine summary after
                          !.imail = IF cause = "imail" THEN @ - 1 ELSE @,
                          !.chk = IF cause = "idlecheck" THEN FALSE ELSE @]
   /\ row' = IF Dev_InternalActivityKeepsIdleFlag \/ cause = "idlecheck" THEN row ELSE [row EXCEPT !.idle = 0]
-  /\ UNCHANGED <<now, proc, nlog, logEnded, loops, gen, active, pactive, timers, tw, start, sfails, faults, sendpc>>
+  /\ UNCHANGED <<relpc, now, proc, nlog, logEnded, loops, gen, active, pactive, timers, tw, start, sfails, faults, sendpc>>
 
 Persist(ends) ==              \* on_tick -> store.append_tick; `ends`: this tick makes the reducer end the run
   /\ proc = "up" /\ gen \in loops /\ active /\ eng.phase = "reduced"
   /\ nlog' = nlog + 1 /\ logEnded' = (logEnded \/ ends)
   /\ eng' = [eng EXCEPT !.phase = "cmds"]
-  /\ UNCHANGED <<now, proc, row, loops, gen, active, pactive, timers, tw, start, sfails, faults, inbox, sendpc>>
+  /\ UNCHANGED <<relpc, now, proc, row, loops, gen, active, pactive, timers, tw, start, sfails, faults, inbox, sendpc>>
 
 (* _IdleReleaseInternalRunAdapter.write_to_event_stream(WorkflowIdleEvent) *)
 TickDone(q, c, tm) ==         \* the commands of the tick have been executed; the loop goes back to waiting
@@ -139,7 +142,7 @@ TickDone(q, c, tm) ==         \* the commands of the tick have been executed; th
   \* c: they asked for an idle check;  tm: they scheduled a wake-up (retry delay, waiter timeout)
   /\ ((q \/ c \/ tm) => eng.cause # "idlecheck")
   /\ eng' = [eng EXCEPT !.phase = "wait", !.work = @ \/ q, !.chk = @ \/ c, !.timers = @ \/ tm]
-  /\ UNCHANGED <<now, proc, row, nlog, logEnded, loops, gen, active, pactive, timers, tw, start, sfails, faults, inbox, sendpc>>
+  /\ UNCHANGED <<relpc, now, proc, row, nlog, logEnded, loops, gen, active, pactive, timers, tw, start, sfails, faults, inbox, sendpc>>
 
 PublishIdle ==
   /\ proc = "up" /\ gen \in loops /\ active /\ ~tw.on /\ eng.ended = "none" /\ eng.phase = "cmds" /\ row.exists
@@ -148,7 +151,7 @@ PublishIdle ==
   /\ (Dev_IdleIgnoresMailbox \/ (eng.imail = 0 /\ inbox = 0))
   /\ row' = [row EXCEPT !.status = "running", !.idle = now + 1]
   /\ timers' = timers \cup {now + IdleTimeout}
-  /\ UNCHANGED <<now, proc, nlog, logEnded, loops, gen, active, pactive, eng, tw, start, sfails, faults, inbox, sendpc>>
+  /\ UNCHANGED <<relpc, now, proc, nlog, logEnded, loops, gen, active, pactive, eng, tw, start, sfails, faults, inbox, sendpc>>
 
 (* _ServerInternalRunAdapter.write_to_event_stream(terminal event): _retry_store_write *)
 PublishTerminal(k) ==
@@ -156,18 +159,18 @@ PublishTerminal(k) ==
   /\ eng.cause # "idlecheck"                     \* an idle check publishes nothing but WorkflowIdleEvent
   /\ eng' = [eng EXCEPT !.ended = k, !.work = FALSE]
   /\ tw' = [on |-> TRUE, status |-> StatusOf(k), fails |-> 0]
-  /\ UNCHANGED <<now, proc, row, nlog, logEnded, loops, gen, active, pactive, timers, start, sfails, faults, inbox, sendpc>>
+  /\ UNCHANGED <<relpc, now, proc, row, nlog, logEnded, loops, gen, active, pactive, timers, start, sfails, faults, inbox, sendpc>>
 
 TermWriteOk ==
   /\ proc = "up" /\ tw.on
   /\ row' = IF row.exists THEN [row EXCEPT !.status = tw.status, !.result = (tw.status = "completed")] ELSE row
   /\ tw' = NoTw
-  /\ UNCHANGED <<now, proc, nlog, logEnded, loops, gen, active, pactive, timers, eng, start, sfails, faults, inbox, sendpc>>
+  /\ UNCHANGED <<relpc, now, proc, nlog, logEnded, loops, gen, active, pactive, timers, eng, start, sfails, faults, inbox, sendpc>>
 
 TermWriteFail ==
   /\ proc = "up" /\ tw.on /\ faults < MaxFaults /\ tw.fails < Len(Backoffs)
   /\ tw' = [tw EXCEPT !.fails = @ + 1] /\ faults' = faults + 1
-  /\ UNCHANGED <<now, proc, row, nlog, logEnded, loops, gen, active, pactive, timers, eng, start, sfails, inbox, sendpc>>
+  /\ UNCHANGED <<relpc, now, proc, row, nlog, logEnded, loops, gen, active, pactive, timers, eng, start, sfails, inbox, sendpc>>
 
 (* the control loop task ends (after its terminal event, or because it was aborted) *)
 LoopExit(g) ==
@@ -176,43 +179,62 @@ LoopExit(g) ==
   /\ (tw.on => (g = gen /\ ~active))         \* a loop ends inside its terminal status write only when it is aborted
   /\ loops' = loops \ {g}
   /\ tw' = IF g = gen /\ ~active THEN NoTw ELSE tw      \* ... and the write (its retry, its back-off sleep) dies with the task
-  /\ UNCHANGED <<now, proc, row, nlog, logEnded, gen, active, pactive, timers, eng, start, sfails, faults, inbox, sendpc>>
+  /\ UNCHANGED <<relpc, now, proc, row, nlog, logEnded, gen, active, pactive, timers, eng, start, sfails, faults, inbox, sendpc>>
 
 ----------------------------------------------------------------------------
 (* IdleReleaseDecorator._release_idle_handler, when a _deferred_release task wakes *)
+\* check-then-act under the reload lock: take the lock, read the row (a store with real I/O yields here) ...
+ReleaseRead(d) ==
+  /\ proc = "up" /\ d \in timers /\ now >= d /\ LockFree
+  /\ timers' = timers \ {d}
+  /\ relpc' = IF row.exists /\ row.idle # 0 /\ now - (row.idle - 1) >= IdleTimeout THEN "okT" ELSE "okF"
+  /\ UNCHANGED <<now, proc, row, nlog, logEnded, loops, gen, active, pactive, eng, tw, start, sfails, faults, inbox, sendpc>>
+\* ... then act on what was read and let the lock go
+ReleaseAct ==
+  /\ proc = "up" /\ relpc # "none"
+  /\ active' = (IF relpc = "okT" /\ active THEN FALSE ELSE active)        \* _abort_inner_run (LoopExit follows)
+  /\ relpc' = "none"
+  /\ UNCHANGED <<now, proc, row, nlog, logEnded, loops, gen, pactive, timers, eng, tw, start, sfails, faults, inbox, sendpc>>
+\* both at once (a store whose query does not yield, e.g. SQLite: what a recorded release_fire line stands for)
 ReleaseFire(d) ==
   /\ proc = "up" /\ d \in timers /\ now >= d /\ LockFree
   /\ timers' = timers \ {d}
   /\ IF row.exists /\ row.idle # 0 /\ now - (row.idle - 1) >= IdleTimeout /\ active
        THEN active' = FALSE            \* _abort_inner_run: the loop task is cancelled (LoopExit follows)
        ELSE active' = active
-  /\ UNCHANGED <<now, proc, row, nlog, logEnded, loops, gen, pactive, eng, tw, start, sfails, faults, inbox, sendpc>>
+  /\ UNCHANGED <<relpc, now, proc, row, nlog, logEnded, loops, gen, pactive, eng, tw, start, sfails, faults, inbox, sendpc>>
 
 (* IdleReleaseExternalRunAdapter.send_event: async with reload_lock: [reload] ; idle_since := None ; forward *)
 (* _service.send_event / cancel_handler: resolve_handler refuses a handler whose stored status is terminal ...          *)
 SendCheck ==
   /\ proc = "up" /\ sendpc = "none" /\ row.exists /\ row.status = "running" /\ sendpc' = "checked"
-  /\ UNCHANGED <<now, proc, row, nlog, logEnded, loops, gen, active, pactive, timers, eng, tw, start, sfails, faults, inbox>>
+  /\ UNCHANGED <<relpc, now, proc, row, nlog, logEnded, loops, gen, active, pactive, timers, eng, tw, start, sfails, faults, inbox>>
 (* ... and only then, some awaits later, the adapter takes the reload lock: the run may have ended in between           *)
 SendLock ==
-  /\ proc = "up" /\ sendpc = "checked" /\ sendpc' = "lock"
-  /\ UNCHANGED <<now, proc, row, nlog, logEnded, loops, gen, active, pactive, timers, eng, tw, start, sfails, faults, inbox>>
+  /\ proc = "up" /\ sendpc = "checked" /\ relpc = "none" /\ sendpc' = "lock"
+  /\ UNCHANGED <<relpc, now, proc, row, nlog, logEnded, loops, gen, active, pactive, timers, eng, tw, start, sfails, faults, inbox>>
 SendBegin ==         \* both at once (what a recorded send_begin line without an earlier check line stands for)
-  /\ proc = "up" /\ sendpc = "none" /\ row.exists /\ row.status = "running" /\ sendpc' = "lock"
-  /\ UNCHANGED <<now, proc, row, nlog, logEnded, loops, gen, active, pactive, timers, eng, tw, start, sfails, faults, inbox>>
+  /\ proc = "up" /\ sendpc = "none" /\ relpc = "none" /\ row.exists /\ row.status = "running" /\ sendpc' = "lock"
+  /\ UNCHANGED <<relpc, now, proc, row, nlog, logEnded, loops, gen, active, pactive, timers, eng, tw, start, sfails, faults, inbox>>
 (* _ensure_active_run_locked: context_from_ticks + workflow.run(ctx) *)
 SendReload ==
   /\ proc = "up" /\ sendpc = "lock" /\ ~active /\ nlog > 0
   /\ RunLoop(TRUE)
-  /\ UNCHANGED <<now, proc, row, nlog, logEnded, timers, tw, start, sfails, faults, inbox, sendpc>>
+  /\ UNCHANGED <<relpc, now, proc, row, nlog, logEnded, timers, tw, start, sfails, faults, inbox, sendpc>>
 SendClear ==
   /\ proc = "up" /\ sendpc = "lock" /\ active
   /\ row' = [row EXCEPT !.idle = 0] /\ sendpc' = "cleared"
-  /\ UNCHANGED <<now, proc, nlog, logEnded, loops, gen, active, pactive, timers, eng, tw, start, sfails, faults, inbox>>
+  /\ UNCHANGED <<relpc, now, proc, nlog, logEnded, loops, gen, active, pactive, timers, eng, tw, start, sfails, faults, inbox>>
+(* deviation (not the code today): a loaded run is served WITHOUT the reload lock -- the sender clears idle_since and   *)
+(* forwards while an idle release may be between its read and its abort                                              *)
+SendFast ==
+  /\ Dev_SendSkipsLockWhenLoaded /\ proc = "up" /\ sendpc = "checked" /\ active
+  /\ row' = [row EXCEPT !.idle = 0] /\ sendpc' = "cleared"
+  /\ UNCHANGED <<relpc, now, proc, nlog, logEnded, loops, gen, active, pactive, timers, eng, tw, start, sfails, faults, inbox>>
 SendForward ==
   /\ proc = "up" /\ sendpc = "cleared"
   /\ inbox' = inbox + 1 /\ sendpc' = "none"
-  /\ UNCHANGED <<now, proc, row, nlog, logEnded, loops, gen, active, pactive, timers, eng, tw, start, sfails, faults>>
+  /\ UNCHANGED <<relpc, now, proc, row, nlog, logEnded, loops, gen, active, pactive, timers, eng, tw, start, sfails, faults>>
 
 (* cancel_handler -> WorkflowHandler.cancel_run -> adapter.cancel().  Before the fix the decorator base class handed cancel() *)
 (* to the INNER adapter: the cancel tick reached the mailbox without the reload lock, without a reload and without clearing   *)
@@ -220,13 +242,13 @@ SendForward ==
 CancelDirect ==
   /\ WithCancel /\ Dev_CancelBypassesLock /\ proc = "up" /\ gen \in loops /\ active /\ row.exists /\ row.status = "running"
   /\ inbox' = inbox + 1
-  /\ UNCHANGED <<now, proc, row, nlog, logEnded, loops, gen, active, pactive, timers, eng, tw, start, sfails, faults, sendpc>>
+  /\ UNCHANGED <<relpc, now, proc, row, nlog, logEnded, loops, gen, active, pactive, timers, eng, tw, start, sfails, faults, sendpc>>
 
 ----------------------------------------------------------------------------
 Crash ==
   /\ proc = "up"
   /\ proc' = "down" /\ loops' = {} /\ active' = FALSE /\ pactive' = FALSE /\ timers' = {} /\ tw' = NoTw
-  /\ inbox' = 0 /\ eng' = Eng0 /\ sendpc' = "none"
+  /\ inbox' = 0 /\ eng' = Eng0 /\ sendpc' = "none" /\ relpc' = "none"
   /\ start' = (IF gen = 0 /\ start # "none" THEN "dead" ELSE start)      \* the start_workflow call died with the process
   /\ UNCHANGED <<now, row, nlog, logEnded, gen, sfails, faults>>
 
@@ -235,13 +257,13 @@ Restart ==
   /\ proc = "down" /\ proc' = "up"
   /\ IF row.exists /\ row.status = "running" /\ row.idle = 0
        THEN IF nlog = 0
-              THEN row' = [row EXCEPT !.status = "failed"] /\ UNCHANGED <<loops, gen, active, pactive, eng>>
+              THEN row' = [row EXCEPT !.status = "failed"] /\ UNCHANGED <<relpc, loops, gen, active, pactive, eng>>
             ELSE IF logEnded
               THEN \E st \in Terminal : row' = [row EXCEPT !.status = st, !.result = (st = "completed")]
-                   /\ UNCHANGED <<loops, gen, active, pactive, eng>>
+                   /\ UNCHANGED <<relpc, loops, gen, active, pactive, eng>>
             ELSE RunLoop(TRUE) /\ row' = row
-       ELSE UNCHANGED <<row, loops, gen, active, pactive, eng>>
-  /\ UNCHANGED <<now, nlog, logEnded, timers, tw, start, sfails, faults, inbox, sendpc>>
+       ELSE UNCHANGED <<relpc, row, loops, gen, active, pactive, eng>>
+  /\ UNCHANGED <<relpc, now, nlog, logEnded, timers, tw, start, sfails, faults, inbox, sendpc>>
 
 Advance(t) ==
   /\ t > now /\ t <= MaxT /\ now' = t
@@ -251,14 +273,14 @@ Advance(t) ==
   /\ ~(proc = "up" /\ gen \in loops /\ active /\ eng.ended = "none" /\ (inbox > 0 \/ eng.imail > 0 \/ eng.phase # "wait"))
   /\ ~(tw.on /\ tw.fails = 0)                            \* a store write takes no virtual time; a back-off sleep does
   /\ sendpc = "none"
-  /\ UNCHANGED <<proc, row, nlog, logEnded, loops, gen, active, pactive, timers, eng, tw, start, sfails, faults, inbox, sendpc>>
+  /\ UNCHANGED <<relpc, proc, row, nlog, logEnded, loops, gen, active, pactive, timers, eng, tw, start, sfails, faults, inbox, sendpc>>
 
 Next ==
   \/ StartRowOk \/ StartRowFail \/ StartRun
   \/ InternalSend \/ (\E w, t \in BOOLEAN, c \in Causes : Tick(w, t, c)) \/ (\E e \in BOOLEAN : Persist(e))
   \/ (\E q, c, tm \in BOOLEAN : TickDone(q, c, tm)) \/ PublishIdle \/ (\E k \in {"stop", "failed", "cancelled", "timedout"} : PublishTerminal(k))
   \/ TermWriteOk \/ TermWriteFail \/ (\E g \in loops : LoopExit(g))
-  \/ CancelDirect \/ (\E d \in timers : ReleaseFire(d)) \/ SendCheck \/ SendLock \/ SendReload \/ SendClear \/ SendForward
+  \/ CancelDirect \/ (\E d \in timers : ReleaseRead(d)) \/ ReleaseAct \/ SendFast \/ SendCheck \/ SendLock \/ SendReload \/ SendClear \/ SendForward
   \/ Crash \/ Restart \/ (\E t \in (now + 1)..MaxT : Advance(t))
 Spec == Init /\ [][Next]_vars
 
